@@ -1376,6 +1376,99 @@ def identity_zones(ctx: Ctx, drv: Optional[Driver]) -> None:
             ctx.mismatch('values counted once in each phase', case, info['cross'], m['cross'])
 
 
+# ---------------------------------------------------------------------------------------------------
+# vocabulary in NO namespace with DEFAULT-namespace declarations on the last / intermediate descendants of a
+# depth-level element (foreign content admitted by xs:any ##other), followed by depth-level elements with errors of
+# every kind: a namespace context left behind by a chunk must not reach the schema lookup / validation of the next one
+
+DEFNS_XSD = """<xs:schema xmlns:xs="http://www.w3.org/2001/XMLSchema">
+ <xs:element name="root"><xs:complexType><xs:sequence>
+  <xs:element name="item" maxOccurs="unbounded"><xs:complexType><xs:sequence>
+   <xs:element name="v" type="xs:int" minOccurs="0"/>
+   <xs:element name="w" minOccurs="0"><xs:complexType><xs:sequence>
+     <xs:element name="u" type="xs:int" minOccurs="0"/>
+     <xs:any namespace="##other" processContents="%(pc)s" minOccurs="0" maxOccurs="unbounded"/>
+   </xs:sequence><xs:attribute name="id" type="xs:ID"/></xs:complexType></xs:element>
+   <xs:any namespace="##other" processContents="%(pc)s" minOccurs="0" maxOccurs="unbounded"/>
+  </xs:sequence>
+  <xs:attribute name="id" type="xs:ID"/><xs:attribute name="ref" type="xs:IDREF"/>
+  <xs:attribute name="code" type="xs:string"%(req)s/></xs:complexType></xs:element>
+  <xs:element name="tail" type="xs:int" minOccurs="0"/>
+ </xs:sequence></xs:complexType>
+ <xs:%(kind)s name="itemCode"><xs:selector xpath="item"/><xs:field xpath="@code"/></xs:%(kind)s>%(kref)s
+ </xs:element>
+</xs:schema>"""
+
+
+def gen_defns_doc(rng) -> bytes:
+    def ext(depth=0) -> str:
+        ns = rng.choice(['urn:ext:a', 'urn:ext:b'])
+        inner = ''
+        r = rng.random()
+        if r < 0.35:
+            inner = '<note>n</note>'
+        elif r < 0.55 and depth < 2:
+            inner = '<note>n</note>' + ext(depth + 1)              # a nested default namespace on the last descendant
+        elif r < 0.7:
+            inner = '<back xmlns=""><v>1</v></back>'                # default namespace undeclared again inside
+        elif r < 0.8:
+            inner = '<p:x xmlns:p="urn:ext:p"/>'
+        return f'<ext xmlns="{ns}">{inner}</ext>'
+    n = rng.choice([2, 3, 3, 4, 5])
+    ids = ['a', 'b', 'c', 'd', 'e', 'f']
+    items = []
+    for i in range(n):
+        at = ''
+        if rng.random() < 0.7:
+            at += ' id="%s"' % (rng.choice(ids[:i + 1]) if rng.random() < 0.25 else ids[i])
+        if rng.random() < 0.4:
+            at += ' ref="%s"' % rng.choice(ids[:n] + ['missing'])
+        if rng.random() < 0.9:
+            at += ' code="c%d"' % (rng.randint(1, 3) if rng.random() < 0.3 else 10 + i)
+        body = ''
+        r = rng.random()
+        if r < 0.7:
+            body += '<v>%s</v>' % rng.choice(['1', '2', '3', 'not-an-int', '4'])
+        elif r < 0.8:
+            body += '<v>1</v><v>2</v>'                               # content model error
+        if rng.random() < 0.4:
+            w = '<u>%s</u>' % rng.choice(['7', 'x']) if rng.random() < 0.6 else ''
+            if rng.random() < 0.6:
+                w += ext()
+            body += '<w%s>%s</w>' % (' id="%s"' % rng.choice(ids) if rng.random() < 0.2 else '', w)
+        if rng.random() < (0.75 if i < n - 1 else 0.3):
+            body += ext()
+            if rng.random() < 0.2:
+                body += ext()
+        if rng.random() < 0.08:
+            body += '<zz/>'                                          # unexpected child in no namespace
+        items.append(f'<item{at}>{body}</item>')
+    tail = '<tail>%s</tail>' % rng.choice(['1', 'bad']) if rng.random() < 0.3 else ''
+    return ('<root>' + ''.join(items) + tail + '</root>').encode()
+
+
+def default_ns_family(ctx: Ctx, drv: Optional[Driver]) -> None:
+    for _ in range(ctx.pick(12, 80)):
+        kind = ctx.rng.choice(['key', 'unique'])
+        xsd = DEFNS_XSD % {
+            'pc': ctx.rng.choice(['lax', 'lax', 'skip']), 'kind': kind,
+            'req': ctx.rng.choice(['', ' use="required"']),
+            'kref': ctx.rng.choice(['', '\n <xs:keyref name="R" refer="itemCode"><xs:selector xpath="item/w"/>'
+                                        '<xs:field xpath="@id"/></xs:keyref>'])}
+        for _ in range(ctx.pick(5, 8)):
+            xml = gen_defns_doc(ctx.rng)
+            ctx.count('defns:docs')
+            if b'</ext><item' in xml or b'</ext></w><item' in xml:
+                ctx.count('defns:default-namespace-on-last-descendant-then-sibling')
+            try:
+                run_one(ctx, drv, xsd, xml, {'family': 'default-namespace-on-descendants'})
+            except Exception as ex:  # noqa
+                import traceback
+                ctx.count('defns:harness-raises:' + type(ex).__name__)
+                if len(ctx.notes) < 5:
+                    ctx.notes.append('default_ns_family raised: ' + traceback.format_exc()[-400:])
+
+
 def family(ctx: Ctx, drv: Optional[Driver]) -> None:
     n_schemas = ctx.pick(150, 1500)
     n_docs = ctx.pick(5, 8)
@@ -1420,6 +1513,7 @@ def run(ctx: Ctx, driver_ok: bool) -> None:
                      'C06-F11, theorem iter_lazy_order_pinned; patched = document order, theorem iter_lazy_order)' % iter_variant())
     corpus(ctx, drv)
     identity_zones(ctx, drv)
+    default_ns_family(ctx, drv)
     family(ctx, drv)
     ctx.extra['explanation'] = ('seeded random family; property claimed at lazy depth 1 (depths 2-4 explored: histogram '
                                 'explored-depth*); model of iter / iter_depth / iterfind / _clear / lazy driver compared at lazy '
@@ -1466,6 +1560,7 @@ def search(ctx: Ctx) -> None:
         ctx.tier = 'thorough'
         try:
             identity_zones(ctx, None)
+            default_ns_family(ctx, None)
             family(ctx, None)
         finally:
             ctx.tier = saved
